@@ -44,6 +44,7 @@ void IX_ENTRY(void) {
   }
   sp = &G_stk[5];
   V_COVER(n == 2 && !idx_is_string);
+  V_COVER(n == 3 && kind == IX_FIRST_KIND);
   if (rev) v_case_rindex(); else v_case_index();
   /* reaching here: a value was produced */
   V_ASSERT(sp == &G_stk[4], "x[i] leaves one value on the stack");
